@@ -150,3 +150,47 @@ func VerifC11_SumDiff() {
 	}
 
 }
+
+// VerifC11_Multi: sum-diff over several items reports a difference when any item's destination
+// deviates, whatever its position in the item order.
+func VerifC11_Multi() {
+	h := vrtCmdHeader([]string{"1s:2s"}, wt.Sum, 0.5)
+	now := vrtCmdInstant(h, "now")
+	vrtCmdAssumeClock(h, now)
+	vrt.SetClock(uint32(now))
+	clean := vrtConcreteImage(h)
+	simg, _ := vrtCmdInvImage(h, "s", now)
+	dimg, _ := vrtCmdInvImage(h, "d", now)
+	pos := vrt.Choose("pos", 3)
+	items := []string{"item1", "item2", "item3"}
+	var base, dbase string
+	for i, it := range items {
+		if i == pos {
+			base = filepath.Dir(filepath.Dir(vrt.TempFile("base/"+it+"/a.wsp", simg)))
+			dbase = filepath.Dir(filepath.Dir(vrt.TempFile("dst/"+it+"/sum.wsp", dimg)))
+		} else {
+			vrt.TempFile("base/"+it+"/a.wsp", clean)
+			vrt.TempFile("dst/"+it+"/sum.wsp", clean)
+		}
+	}
+	c := &SumDiffCommand{SrcBase: base, ItemPattern: "item*", SrcPattern: "*.wsp", DestBase: dbase, DestRelPath: "sum.wsp", ArchiveID: ArchiveIDAll}
+	vrt.Reach("pre")
+	err := c.execute(vrt.Writer())
+	sdb, e1 := wt.Open(filepath.Join(base, items[pos], "a.wsp"))
+	ddb, e2 := wt.Open(filepath.Join(dbase, items[pos], "sum.wsp"))
+	vrt.Assume(e1 == nil)
+	vrt.Assume(e2 == nil)
+	sts, _ := sdb.FetchFromArchive(0, 0, now, now)
+	dts, _ := ddb.FetchFromArchive(0, 0, now, now)
+	differ := false
+	for k, v := range sts.Values() {
+		if !vrtSameValue(v, dts.Values()[k]) {
+			differ = true
+		}
+	}
+	if differ {
+		vrt.Assert(errors.Is(err, ErrDiffFound), "C11.multi one deviating item makes the whole sum-diff run report a difference")
+	} else {
+		vrt.Assert(err == nil, "C11.multi all items equal: clean")
+	}
+}
